@@ -19,9 +19,10 @@ func init() {
 			"iteration order of sets with non-primitive members is Unspecified",
 		},
 		Run: func(c *Ctx) {
-			cap := 20000
+			cap := 60000
+			deepDict = c.Thorough
 			if c.Thorough {
-				cap = 200000
+				cap = 3000000
 			}
 			c.Note("functions_with_reference", fmtInt(len(refsC13)))
 			runRefDiff(c, refsC13, cap)
